@@ -170,7 +170,8 @@ func cont(l []*Inner, i *Inner) bool { return deriveContains(l, i) }
 
 func siblingFiles(name string) map[string]string {
 	return map[string]string{
-		name + "/t.go": "package " + name + "\n\ntype T struct {\n\tA []int\n\tB map[string]*T\n}\n\nfunc eq(a, b *T) bool { return deriveEqual(a, b) }\n\nfunc h(a *T) uint64 { return deriveHash(a) }\n",
+		name + "/t.go": "package " + name + "\n\ntype T struct {\n\tA []int\n\tB map[string]*T\n}\n\nfunc eq(a, b *T) bool { return deriveEqual(a, b) }\n\nfunc h(a *T) uint64 { return deriveHash(a) }\n\n" +
+			"// a nested derive call: typeable only after a first generation pass and a reload\nfunc ks(m map[string]*T) []string { return deriveSort(deriveKeys(m)) }\n",
 	}
 }
 
@@ -442,6 +443,21 @@ func contextVariants(c *core.Ctx, bin string, pfiles map[string]string) ([]outco
 		{"", []string{"./p", "./p"}},
 	}
 	seen := map[string]*outcome{}
+	// every package a variant names must come out as when it is processed alone: the outcome of a variant
+	// is its exit status plus, for each of p, q, r that it names, whether derived.gen.go equals the alone-run
+	alone := map[string]string{}
+	for _, pk := range []string{"p", "q", "r"} {
+		root := filepath.Join(c.Work, "ctx", "alone-"+pk)
+		if err := writeFiles(root, files); err != nil {
+			return nil, 0, err
+		}
+		if _, err := gd.Run(c, bin, filepath.Join(root, pk), []string{"."}, "", 0); err != nil {
+			return nil, 0, err
+		}
+		data, _ := os.ReadFile(filepath.Join(root, pk, "derived.gen.go"))
+		alone[pk] = sha(data)
+		os.RemoveAll(root)
+	}
 	for i, v := range vs {
 		root := filepath.Join(c.Work, "ctx", fmt.Sprintf("v%d", i))
 		if err := writeFiles(root, files); err != nil {
@@ -451,10 +467,24 @@ func contextVariants(c *core.Ctx, bin string, pfiles map[string]string) ([]outco
 		if err != nil {
 			return nil, 0, err
 		}
-		data, _ := os.ReadFile(filepath.Join(root, "p", "derived.gen.go"))
-		key := fmt.Sprintf("%d/%s", r.Exit, sha(data))
+		sig := ""
+		for _, pk := range []string{"p", "q", "r"} {
+			named := false
+			for _, a := range v.args {
+				named = named || (strings.HasSuffix(a, "...") && v.cwd == "") || strings.HasSuffix(a, "/"+pk) || (a == "." && v.cwd == pk) || (strings.HasSuffix(a, "...") && v.cwd == pk)
+			}
+			if !named {
+				continue
+			}
+			data, _ := os.ReadFile(filepath.Join(root, pk, "derived.gen.go"))
+			if sha(data) != alone[pk] {
+				sig += pk + ":" + sha(data) + " "
+				c.Warn(fmt.Sprintf("invocation variant cwd=%q args=%v: derived.gen.go of package %s differs from processing it alone", v.cwd, v.args, pk))
+			}
+		}
+		key := fmt.Sprintf("%d/%s", r.Exit, sig)
 		if seen[key] == nil {
-			seen[key] = &outcome{Exit: r.Exit, Sha: sha(data)}
+			seen[key] = &outcome{Exit: r.Exit, Sha: "differs-from-alone[" + strings.TrimSpace(sig) + "]"}
 		}
 		seen[key].Count++
 		if r.Exit != 0 {
